@@ -359,3 +359,23 @@ CHECKS["C20"] = {
     ),
     "note": "Twisted's unhandled-error logging at garbage collection is runtime behaviour and is not decided." + TRUSTED,
 }
+
+CHECKS["C14"] = {
+    "technique": "truth/emptiness abstract interpretation of _run_core over all source combinations + catch-all sibling agreement + structural chain/pairing rules",
+    "text": (
+        "AsynchronousDeferredRunTest._run_core is interpreted abstractly over all 16 combinations of its four problem "
+        "sources (blocking-run verdict, flushed logged errors, unhandled Deferreds, reactor junk): addSuccess is "
+        "delivered at most once and exactly when all four are clean, and every dirty source records an exception so "
+        "that C01's dispatch reports one outcome. Every place where user code or a user Deferred's failure surfaces in "
+        "the Twisted runners is under a catch-all, in agreement with RunTest._run_user (found: async cleanups awaited "
+        "under `except Exception`, fixed). _run_deferred chains setUp, test, tearDown (on both outcomes), cleanups (on "
+        "both outcomes) and the forced failure, marking every failed stage; log observers are restored by cleanups "
+        "registered in the same iteration and the reactor is spun inside both fixtures; spinner TimeoutError / "
+        "NoResultError are recorded and the interrupt arm stops the result."
+    ),
+    "note": (
+        "Not applicable to this family (declined): that the next stage starts only after a Deferred fired, timeouts "
+        "relative to delays, interrupt instants and actual reactor cleanliness -- runtime behaviour of Twisted objects. "
+        "The decided clauses are necessary conditions of the property." + TRUSTED
+    ),
+}
